@@ -112,6 +112,8 @@ def run(tier, seed):
                            'luafmt succeeds and keeps tokens and comments'
                            % (nat.get('programs', 0), 'all 0-8' if big else '{0,2,5}', un.get('n', 0), tri.get('runs', 0), tri.get('n', 0)),
                    'evaluations': nat.get('runs', 0) + un.get('n', 0) + tri.get('evaluations', 0), 'failures': len(nbad)}
+    if chk.bounded and nat.get('corpus'):
+        chk.bounded['rule'] += '.  Plus %d runs over the hand-written corpus specs/luacorpus.py (shapes random generation reaches only by luck)' % nat['corpus']
     chk.native_witness = nbad
     if nbad:
         for v in chk.violations:
